@@ -2,6 +2,9 @@
 //! (`rumqttc::verif::set_connector`, a `tokio::io::duplex` pair) under paused tokio time, with a
 //! scripted broker on the other end.  Everything after `network_connect` runs unmodified.
 //!   LNEW <max_inflight> <manual_acks>     new AsyncClient + EventLoop (clean_session = false)
+//!   LNEW5 <max_inflight> <manual_acks>    the same on rumqttc::v5 (clean_start = false; the limit is outgoing_inflight_upper_limit);
+//!                                         ACCEPT then takes the CONNACK properties: ACCEPT <sp> [<receive_max|-> [<topic_alias_max|->]],
+//!                                         packets are written in the v5 text form (acks: <kind> <id> [<reason>], DISCONNECT [<reason>])
 //!   SEND <request>                        AsyncClient::try_publish / try_subscribe / ... (channel)
 //!   ACCEPT <session_present>              the broker will accept the next connection (CONNACK queued)
 //!   NET <packet> [; <packet>]*            the broker writes these packets (read by a later POLL)
@@ -558,31 +561,385 @@ burst_scenario!(
     pkt5_s, err5
 );
 
+#[allow(dead_code)]
+mod t5 {
+    use rumqttc::v5::mqttbytes::v5::*;
+    use rumqttc::v5::mqttbytes::QoS;
+    use rumqttc::v5::{Event, MqttState, Request, StateError};
+    use rumqttc::Outgoing;
+
+    pub fn qos(s: &str) -> QoS {
+        match s {
+            "0" => QoS::AtMostOnce,
+            "1" => QoS::AtLeastOnce,
+            "2" => QoS::ExactlyOnce,
+            _ => panic!("bad qos"),
+        }
+    }
+    fn num(s: &str) -> u16 {
+        s.parse().expect("number")
+    }
+    fn optn(s: &str) -> Option<u16> {
+        if s == "-" { None } else { Some(num(s)) }
+    }
+    /// topic tag 0 = the empty topic
+    pub fn mk_pub(t: &[&str]) -> Publish {
+        let topic = if t[2] == "0" { String::new() } else { format!("t{}", t[2]) };
+        let alias = if t.len() > 4 { optn(t[4]) } else { None };
+        let props = alias.map(|a| PublishProperties { topic_alias: Some(a), ..Default::default() });
+        let mut p = Publish::new(topic, qos(t[0]), t[3].as_bytes().to_vec(), props);
+        p.pkid = num(t[1]);
+        p
+    }
+    fn tag(b: &[u8]) -> String {
+        if b.is_empty() {
+            return "0".into();
+        }
+        match std::str::from_utf8(b).ok().and_then(|s| s.strip_prefix('t')) {
+            Some(r) if r.parse::<u64>().is_ok() => r.to_string(),
+            _ => format!("x{}", crate::hex(b)),
+        }
+    }
+    fn ptag(b: &[u8]) -> String {
+        match std::str::from_utf8(b) {
+            Ok(r) if r.parse::<u64>().is_ok() => r.to_string(),
+            _ => format!("x{}", crate::hex(b)),
+        }
+    }
+    pub fn pub_s(p: &Publish) -> String {
+        let a = p.properties.as_ref().and_then(|x| x.topic_alias).map(|a| format!(":a{a}")).unwrap_or_default();
+        format!("PUB:{}:{}:{}:{}{}", p.qos as u8, p.pkid, tag(&p.topic), ptag(&p.payload), a)
+    }
+    fn filters(n: usize) -> Vec<Filter> {
+        (0..n).map(|i| Filter::new(format!("f{i}"), QoS::AtMostOnce)).collect()
+    }
+    fn ack_reason(t: &[&str]) -> u8 {
+        if t.len() > 2 { t[2].parse().unwrap() } else { 0 }
+    }
+    fn puback_reason(r: u8) -> PubAckReason {
+        match r {
+            0 => PubAckReason::Success,
+            16 => PubAckReason::NoMatchingSubscribers,
+            128 => PubAckReason::UnspecifiedError,
+            135 => PubAckReason::NotAuthorized,
+            151 => PubAckReason::QuotaExceeded,
+            _ => panic!("unsupported puback reason {r}"),
+        }
+    }
+    fn pubrec_reason(r: u8) -> PubRecReason {
+        match r {
+            0 => PubRecReason::Success,
+            16 => PubRecReason::NoMatchingSubscribers,
+            128 => PubRecReason::UnspecifiedError,
+            135 => PubRecReason::NotAuthorized,
+            151 => PubRecReason::QuotaExceeded,
+            _ => panic!("unsupported pubrec reason {r}"),
+        }
+    }
+    fn puback_n(r: PubAckReason) -> u8 {
+        match r {
+            PubAckReason::Success => 0,
+            PubAckReason::NoMatchingSubscribers => 16,
+            PubAckReason::UnspecifiedError => 128,
+            PubAckReason::ImplementationSpecificError => 131,
+            PubAckReason::NotAuthorized => 135,
+            PubAckReason::TopicNameInvalid => 144,
+            PubAckReason::PacketIdentifierInUse => 145,
+            PubAckReason::QuotaExceeded => 151,
+            PubAckReason::PayloadFormatInvalid => 153,
+        }
+    }
+    fn pubrec_n(r: PubRecReason) -> u8 {
+        match r {
+            PubRecReason::Success => 0,
+            PubRecReason::NoMatchingSubscribers => 16,
+            PubRecReason::UnspecifiedError => 128,
+            PubRecReason::ImplementationSpecificError => 131,
+            PubRecReason::NotAuthorized => 135,
+            PubRecReason::TopicNameInvalid => 144,
+            PubRecReason::PacketIdentifierInUse => 145,
+            PubRecReason::QuotaExceeded => 151,
+            PubRecReason::PayloadFormatInvalid => 153,
+        }
+    }
+    fn disc_reason(r: u8) -> DisconnectReasonCode {
+        match r {
+            0 => DisconnectReasonCode::NormalDisconnection,
+            130 => DisconnectReasonCode::ProtocolError,
+            139 => DisconnectReasonCode::ServerShuttingDown,
+            142 => DisconnectReasonCode::SessionTakenOver,
+            _ => panic!("unsupported disconnect reason {r}"),
+        }
+    }
+    pub fn request(t: &[&str]) -> Request {
+        match t[0] {
+            "PUB" => Request::Publish(mk_pub(&t[1..])),
+            "PUBACK" => Request::PubAck(PubAck::new(num(t[1]), None)),
+            "PUBREC" => Request::PubRec(PubRec::new(num(t[1]), None)),
+            "PUBCOMP" => Request::PubComp(PubComp::new(num(t[1]), None)),
+            "PUBREL" => Request::PubRel(PubRel::new(num(t[1]), None)),
+            "PINGREQ" => Request::PingReq,
+            "PINGRESP" => Request::PingResp,
+            "SUB" => Request::Subscribe(Subscribe { pkid: 0, filters: filters(num(t[1]) as usize), properties: None }),
+            "SUBACK" => Request::SubAck(SubAck { pkid: num(t[1]), return_codes: vec![SubscribeReasonCode::Success(QoS::AtMostOnce)], properties: None }),
+            "UNSUB" => Request::Unsubscribe(Unsubscribe { pkid: 0, filters: (0..num(t[1])).map(|i| format!("f{i}")).collect(), properties: None }),
+            "UNSUBACK" => Request::UnsubAck(UnsubAck { pkid: num(t[1]), reasons: vec![UnsubAckReason::Success], properties: None }),
+            "DISCONNECT" => Request::Disconnect,
+            o => panic!("bad request {o}"),
+        }
+    }
+    pub fn packet(t: &[&str]) -> Packet {
+        match t[0] {
+            "PUB" => Packet::Publish(mk_pub(&t[1..])),
+            "PUBACK" => Packet::PubAck(PubAck { pkid: num(t[1]), reason: puback_reason(ack_reason(t)), properties: None }),
+            "PUBREC" => Packet::PubRec(PubRec { pkid: num(t[1]), reason: pubrec_reason(ack_reason(t)), properties: None }),
+            "PUBREL" => Packet::PubRel(PubRel {
+                pkid: num(t[1]),
+                reason: if ack_reason(t) == 0 { PubRelReason::Success } else { PubRelReason::PacketIdentifierNotFound },
+                properties: None,
+            }),
+            "PUBCOMP" => Packet::PubComp(PubComp {
+                pkid: num(t[1]),
+                reason: if ack_reason(t) == 0 { PubCompReason::Success } else { PubCompReason::PacketIdentifierNotFound },
+                properties: None,
+            }),
+            "SUBACK" => Packet::SubAck(SubAck { pkid: num(t[1]), return_codes: vec![SubscribeReasonCode::Success(QoS::AtMostOnce)], properties: None }),
+            "UNSUBACK" => Packet::UnsubAck(UnsubAck { pkid: num(t[1]), reasons: vec![UnsubAckReason::Success], properties: None }),
+            "SUB" => Packet::Subscribe(Subscribe { pkid: num(t[1]), filters: filters(num(t[2]) as usize), properties: None }),
+            "UNSUB" => Packet::Unsubscribe(Unsubscribe { pkid: num(t[1]), filters: (0..num(t[2])).map(|i| format!("f{i}")).collect(), properties: None }),
+            "PINGREQ" => Packet::PingReq(PingReq),
+            "PINGRESP" => Packet::PingResp(PingResp),
+            "CONNECT" => Packet::Connect(Connect { keep_alive: 10, client_id: "c".into(), clean_start: true, properties: None }, None, None),
+            "CONNACK" => {
+                let (rm, tam) = (optn(t[3]), optn(t[4]));
+                let properties = if rm.is_some() || tam.is_some() {
+                    Some(ConnAckProperties { receive_max: rm, topic_alias_max: tam, ..conn_props() })
+                } else {
+                    None
+                };
+                Packet::ConnAck(ConnAck {
+                    session_present: t[1] == "1",
+                    code: if t[2] == "0" { ConnectReturnCode::Success } else { ConnectReturnCode::NotAuthorized },
+                    properties,
+                })
+            }
+            "DISCONNECT" => Packet::Disconnect(Disconnect::new(disc_reason(if t.len() > 1 { t[1].parse().unwrap() } else { 0 }))),
+            o => panic!("bad packet {o}"),
+        }
+    }
+    fn conn_props() -> ConnAckProperties {
+        ConnAckProperties {
+            session_expiry_interval: None,
+            receive_max: None,
+            max_qos: None,
+            retain_available: None,
+            max_packet_size: None,
+            assigned_client_identifier: None,
+            topic_alias_max: None,
+            reason_string: None,
+            user_properties: vec![],
+            wildcard_subscription_available: None,
+            subscription_identifiers_available: None,
+            shared_subscription_available: None,
+            server_keep_alive: None,
+            response_information: None,
+            server_reference: None,
+            authentication_method: None,
+            authentication_data: None,
+        }
+    }
+    fn ack_s(k: &str, id: u16, r: u8) -> String {
+        if r == 0 { format!("{k}:{id}") } else { format!("{k}:{id}:{r}") }
+    }
+    fn on(x: Option<u16>) -> String {
+        x.map(|v| v.to_string()).unwrap_or("-".into())
+    }
+    pub fn packet_s(p: &Packet) -> String {
+        match p {
+            Packet::Auth(_) => "AUTH".into(),
+            Packet::Connect(..) => "CONNECT".into(),
+            Packet::ConnAck(c) => format!(
+                "CONNACK:{}:{}:{}:{}",
+                c.session_present as u8,
+                if c.code == ConnectReturnCode::Success { 0 } else { 135 },
+                on(c.properties.as_ref().and_then(|p| p.receive_max)),
+                on(c.properties.as_ref().and_then(|p| p.topic_alias_max))
+            ),
+            Packet::Publish(p) => pub_s(p),
+            Packet::PubAck(a) => ack_s("PUBACK", a.pkid, puback_n(a.reason)),
+            Packet::PubRec(a) => ack_s("PUBREC", a.pkid, pubrec_n(a.reason)),
+            Packet::PubRel(a) => ack_s("PUBREL", a.pkid, if a.reason == PubRelReason::Success { 0 } else { 146 }),
+            Packet::PubComp(a) => ack_s("PUBCOMP", a.pkid, if a.reason == PubCompReason::Success { 0 } else { 146 }),
+            Packet::Subscribe(s) => format!("SUB:{}:{}", s.pkid, s.filters.len()),
+            Packet::SubAck(s) => format!("SUBACK:{}", s.pkid),
+            Packet::Unsubscribe(s) => format!("UNSUB:{}:{}", s.pkid, s.filters.len()),
+            Packet::UnsubAck(s) => format!("UNSUBACK:{}", s.pkid),
+            Packet::PingReq(_) => "PINGREQ".into(),
+            Packet::PingResp(_) => "PINGRESP".into(),
+            Packet::Disconnect(d) => {
+                let r = d.reason_code as u8;
+                if r == 0 { "DISCONNECT".into() } else { format!("DISCONNECT:{r}") }
+            }
+        }
+    }
+    pub fn request_s(r: &Request) -> String {
+        match r {
+            Request::Publish(p) => pub_s(p),
+            Request::PubAck(a) => format!("PUBACK:{}", a.pkid),
+            Request::PubRec(a) => format!("PUBREC:{}", a.pkid),
+            Request::PubComp(a) => format!("PUBCOMP:{}", a.pkid),
+            Request::PubRel(a) => format!("PUBREL:{}", a.pkid),
+            Request::PingReq => "PINGREQ".into(),
+            Request::PingResp => "PINGRESP".into(),
+            Request::Subscribe(s) => format!("SUB:{}:{}", s.pkid, s.filters.len()),
+            Request::SubAck(s) => format!("SUBACK:{}", s.pkid),
+            Request::Unsubscribe(s) => format!("UNSUB:{}:{}", s.pkid, s.filters.len()),
+            Request::UnsubAck(s) => format!("UNSUBACK:{}", s.pkid),
+            Request::Disconnect => "DISCONNECT".into(),
+        }
+    }
+    pub fn event_s(e: &Event) -> String {
+        match e {
+            Event::Incoming(p) => format!("I({})", packet_s(p)),
+            Event::Outgoing(o) => format!(
+                "O({})",
+                match o {
+                    Outgoing::Publish(i) => format!("PUB:{i}"),
+                    Outgoing::Subscribe(i) => format!("SUB:{i}"),
+                    Outgoing::Unsubscribe(i) => format!("UNSUB:{i}"),
+                    Outgoing::PubAck(i) => format!("PUBACK:{i}"),
+                    Outgoing::PubRec(i) => format!("PUBREC:{i}"),
+                    Outgoing::PubRel(i) => format!("PUBREL:{i}"),
+                    Outgoing::PubComp(i) => format!("PUBCOMP:{i}"),
+                    Outgoing::PingReq => "PINGREQ".into(),
+                    Outgoing::PingResp => "PINGRESP".into(),
+                    Outgoing::Disconnect => "DISCONNECT".into(),
+                    Outgoing::AwaitAck(i) => format!("AWAITACK:{i}"),
+                }
+            ),
+        }
+    }
+    pub fn error_s(e: &StateError) -> String {
+        match e {
+            StateError::Unsolicited(i) => format!("Unsolicited:{i}"),
+            StateError::AwaitPingResp => "AwaitPingResp".into(),
+            StateError::WrongPacket => "WrongPacket".into(),
+            StateError::CollisionTimeout => "CollisionTimeout".into(),
+            StateError::EmptySubscription => "EmptySubscription".into(),
+            StateError::InvalidAlias { alias, max } => format!("InvalidAlias:{alias}:{max}"),
+            StateError::ServerDisconnect { reason_code, .. } => format!("ServerDisconnect:{}", *reason_code as u8),
+            StateError::ConnFail { reason } => format!(
+                "ConnFail:{}",
+                match reason {
+                    ConnectReturnCode::Success => 0,
+                    ConnectReturnCode::ProtocolError => 130,
+                    _ => 135,
+                }
+            ),
+            other => format!("Other:{}", format!("{other:?}").split(|c: char| !c.is_alphanumeric()).next().unwrap_or("")),
+        }
+    }
+    pub fn tail(s: &mut MqttState) -> String {
+        let evs: Vec<String> = s.events.drain(..).map(|e| event_s(&e)).collect();
+        format!("EV[{}] INFL {} COLL {}", evs.join(" "), s.inflight(), s.collision.is_some() as u8)
+    }
+    pub fn conn_error_s(e: &rumqttc::v5::ConnectionError) -> String {
+        use rumqttc::v5::ConnectionError as CE;
+        match e {
+            CE::MqttState(StateError::ConnectionAborted) => "ConnectionAborted".into(),
+            CE::MqttState(StateError::Io(_)) => "Io".into(),
+            CE::MqttState(StateError::Deserialization(_)) => "Deserialization".into(),
+            CE::MqttState(StateError::InvalidState) => "InvalidState".into(),
+            CE::MqttState(s) => error_s(s),
+            CE::Timeout(_) => "NetworkTimeout".into(),
+            CE::Io(_) => "Io".into(),
+            CE::ConnectionRefused(_) => "ConnectionRefused".into(),
+            CE::NotConnAck(_) => "NotConnAck".into(),
+            CE::RequestsDone => "RequestsDone".into(),
+        }
+    }
+}
+
+/// the client under test: the v4 or the v5 AsyncClient + EventLoop
+enum Lp {
+    V4(AsyncClient, EventLoop),
+    V5(rumqttc::v5::AsyncClient, rumqttc::v5::EventLoop),
+}
+
+/// one EventLoop::poll(), answered as text
+async fn poll_s(lp: &mut Lp) -> Result<String, String> {
+    match lp {
+        Lp::V4(_, el) => el.poll().await.map(|e| event_s(&e)).map_err(|e| error_s(&e)),
+        Lp::V5(_, el) => el.poll().await.map(|e| t5::event_s(&e)).map_err(|e| t5::conn_error_s(&e)),
+    }
+}
+
+/// the broker's end of the current connection
+enum BNet {
+    V4(Network),
+    V5(rumqttc::verif::NetworkV5),
+}
+
+impl BNet {
+    /// buffer the packets (each given as its tokens), then flush
+    async fn write_all(&mut self, pk: &[Vec<String>]) {
+        for p in pk {
+            let t: Vec<&str> = p.iter().map(|x| x.as_str()).collect();
+            match self {
+                BNet::V4(n) => { let _ = n.write(broker_packet(&t)).await; }
+                BNet::V5(n) => { let _ = n.write(t5::packet(&t)).await; }
+            }
+        }
+        match self {
+            BNet::V4(n) => { let _ = n.flush().await; }
+            BNet::V5(n) => { let _ = n.flush().await; }
+        }
+    }
+}
+
 struct Broker {
-    net: Option<Network>,
+    net: Option<BNet>,
 }
 
 impl Broker {
     /// everything the client has flushed so far
     fn received(&mut self) -> Vec<String> {
         let mut v = vec![];
-        if let Some(n) = self.net.as_mut() {
-            loop {
+        match self.net.as_mut() {
+            Some(BNet::V4(n)) => loop {
                 match n.read().now_or_never() {
                     Some(Ok(p)) => v.push(packet_s(&p)),
-                    Some(Err(_)) => break,
-                    None => break,
+                    _ => break,
                 }
-            }
+            },
+            Some(BNet::V5(n)) => loop {
+                match n.read().now_or_never() {
+                    Some(Ok(p)) => v.push(t5::packet_s(&p)),
+                    _ => break,
+                }
+            },
+            None => {}
         }
         v
     }
 }
 
+/// "a b ; c d" -> [[a, b], [c, d]]
+fn packet_parts(rest: &str) -> Vec<Vec<String>> {
+    rest.split(';')
+        .filter_map(|part| {
+            let pt: Vec<String> = part.split_whitespace().map(|x| x.to_string()).collect();
+            if pt.is_empty() { None } else { Some(pt) }
+        })
+        .collect()
+}
+
+type Sched = Vec<(tokio::time::Instant, Vec<Vec<String>>)>;
+
 async fn run() {
     let stdin = io::stdin();
     let mut out = BufWriter::new(io::stdout());
-    let mut lp: Option<(AsyncClient, EventLoop)> = None;
+    let mut lp: Option<Lp> = None;
     let broker = Rc::new(RefCell::new(Broker { net: None }));
     // the client's end of the next connection, handed out by the connector
     let next_socket: Rc<RefCell<Option<DuplexStream>>> = Rc::new(RefCell::new(None));
@@ -593,7 +950,7 @@ async fn run() {
             None => Err(io::Error::new(io::ErrorKind::ConnectionRefused, "no broker")),
         })));
     }
-    let mut sched: Vec<(tokio::time::Instant, Vec<Packet>)> = vec![];
+    let mut sched: Sched = vec![];
     for line in stdin.lock().lines() {
         let line = line.unwrap();
         let t: Vec<&str> = line.split_whitespace().collect();
@@ -604,24 +961,20 @@ async fn run() {
             "NETAT" => {
                 let at = tokio::time::Instant::now() + Duration::from_millis(t[1].parse().unwrap());
                 let rest = line.splitn(3, ' ').nth(2).unwrap_or("");
-                let pk: Vec<Packet> = rest.split(';').filter_map(|part| {
-                    let pt: Vec<&str> = part.split_whitespace().collect();
-                    if pt.is_empty() { None } else { Some(broker_packet(&pt)) }
-                }).collect();
                 if broker.borrow().net.is_some() {
-                    sched.push((at, pk));
+                    sched.push((at, packet_parts(rest)));
                 }
                 "OK".to_string()
             }
             "POLLT" => {
-                let (_, el) = lp.as_mut().unwrap();
+                let el = lp.as_mut().unwrap();
                 let limit = tokio::time::Instant::now() + Duration::from_millis(t[1].parse().unwrap());
                 sched.sort_by_key(|x| x.0);
-                let todo: Vec<(tokio::time::Instant, Vec<Packet>)> = std::mem::take(&mut sched);
+                let todo: Sched = std::mem::take(&mut sched);
                 let head = {
                     let mut b = broker.borrow_mut();
                     let mut pending_writes = todo.into_iter();
-                    let left: RefCell<Vec<(tokio::time::Instant, Vec<Packet>)>> = RefCell::new(vec![]);
+                    let left: RefCell<Sched> = RefCell::new(vec![]);
                     let writer = async {
                         // never completes: the broker's scheduled writes happen while poll() runs
                         while let Some((at, pk)) = pending_writes.next() {
@@ -629,17 +982,14 @@ async fn run() {
                             tokio::time::sleep_until(at).await;
                             left.borrow_mut().pop();
                             if let Some(n) = b.net.as_mut() {
-                                for p in pk {
-                                    let _ = n.write(p).await;
-                                }
-                                let _ = n.flush().await;
+                                n.write_all(&pk).await;
                             }
                         }
                         std::future::pending::<()>().await
                     };
                     let r = tokio::select! {
                         biased;
-                        r = el.poll() => Some(r),
+                        r = poll_s(el) => Some(r),
                         _ = writer => unreachable!(),
                         _ = tokio::time::sleep_until(limit) => None,
                     };
@@ -648,8 +998,8 @@ async fn run() {
                     sched.extend(pending_writes);
                     match r {
                         None => "IDLE".to_string(),
-                        Some(Ok(e)) => format!("EVENT {}", event_s(&e)),
-                        Some(Err(e)) => format!("ERROR {}", error_s(&e)),
+                        Some(Ok(e)) => format!("EVENT {e}"),
+                        Some(Err(e)) => format!("ERROR {e}"),
                     }
                 };
                 let w = broker.borrow_mut().received();
@@ -663,41 +1013,72 @@ async fn run() {
                 o.set_keep_alive(Duration::from_secs(3600));
                 o.set_pending_throttle(Duration::from_millis(if t.len() > 3 { t[3].parse().unwrap() } else { 0 }));
                 sched.clear();
-                lp = Some(AsyncClient::new(o, 1000));
+                let (c, el) = AsyncClient::new(o, 1000);
+                lp = Some(Lp::V4(c, el));
+                broker.borrow_mut().net = None;
+                *next_socket.borrow_mut() = None;
+                "NEW".to_string()
+            }
+            // the v5 client: max_inflight is the configured upper limit (outgoing_inflight_upper_limit)
+            "LNEW5" => {
+                let mut o = rumqttc::v5::MqttOptions::new("verif", "localhost", 1883);
+                o.set_outgoing_inflight_upper_limit(num(t[1]));
+                o.set_manual_acks(t[2] == "1");
+                o.set_clean_start(false);
+                o.set_keep_alive(Duration::from_secs(3600));
+                o.set_pending_throttle(Duration::from_millis(if t.len() > 3 { t[3].parse().unwrap() } else { 0 }));
+                sched.clear();
+                let (c, el) = rumqttc::v5::AsyncClient::new(o, 1000);
+                lp = Some(Lp::V5(c, el));
                 broker.borrow_mut().net = None;
                 *next_socket.borrow_mut() = None;
                 "NEW".to_string()
             }
             "SEND" => {
-                let (c, _) = lp.as_ref().unwrap();
-                let r = match t[1] {
-                    "PUB" => c.try_publish(format!("t{}", t[4]), qos(t[2]), false, t[5].as_bytes().to_vec()).is_ok(),
-                    "SUB" => c.try_subscribe("f0", QoS::AtMostOnce).is_ok(),
-                    "UNSUB" => c.try_unsubscribe("f0").is_ok(),
-                    "DISCONNECT" => c.try_disconnect().is_ok(),
-                    o => panic!("bad request {o}"),
+                let r = match lp.as_ref().unwrap() {
+                    Lp::V4(c, _) => match t[1] {
+                        "PUB" => c.try_publish(format!("t{}", t[4]), qos(t[2]), false, t[5].as_bytes().to_vec()).is_ok(),
+                        "SUB" => c.try_subscribe("f0", QoS::AtMostOnce).is_ok(),
+                        "UNSUB" => c.try_unsubscribe("f0").is_ok(),
+                        "DISCONNECT" => c.try_disconnect().is_ok(),
+                        o => panic!("bad request {o}"),
+                    },
+                    Lp::V5(c, _) => match t[1] {
+                        "PUB" => c.try_publish(format!("t{}", t[4]), t5::qos(t[2]), false, t[5].as_bytes().to_vec()).is_ok(),
+                        "SUB" => c.try_subscribe("f0", rumqttc::v5::mqttbytes::QoS::AtMostOnce).is_ok(),
+                        "UNSUB" => c.try_unsubscribe("f0").is_ok(),
+                        "DISCONNECT" => c.try_disconnect().is_ok(),
+                        o => panic!("bad request {o}"),
+                    },
                 };
                 if r { "OK".into() } else { "FULL".into() }
             }
+            // ACCEPT <session_present> [<receive_maximum|-> [<topic_alias_maximum|->]]   (the properties: v5 only)
             "ACCEPT" => {
                 let (client_end, broker_end) = tokio::io::duplex(1 << 20);
                 *next_socket.borrow_mut() = Some(client_end);
-                let mut n = Network::new(broker_end, 1 << 20, 1 << 20);
-                n.write(Packet::ConnAck(ConnAck::new(ConnectReturnCode::Success, t[1] == "1"))).await.unwrap();
-                n.flush().await.unwrap();
-                broker.borrow_mut().net = Some(n);
+                let net = match lp.as_ref().unwrap() {
+                    Lp::V4(..) => {
+                        let mut n = Network::new(broker_end, 1 << 20, 1 << 20);
+                        n.write(Packet::ConnAck(ConnAck::new(ConnectReturnCode::Success, t[1] == "1"))).await.unwrap();
+                        n.flush().await.unwrap();
+                        BNet::V4(n)
+                    }
+                    Lp::V5(..) => {
+                        let mut n = rumqttc::verif::NetworkV5::new(broker_end, Some(1 << 20));
+                        let ca = ["CONNACK", t[1], "0", if t.len() > 2 { t[2] } else { "-" }, if t.len() > 3 { t[3] } else { "-" }];
+                        n.write(t5::packet(&ca)).await.unwrap();
+                        n.flush().await.unwrap();
+                        BNet::V5(n)
+                    }
+                };
+                broker.borrow_mut().net = Some(net);
                 "OK".to_string()
             }
             "NET" => {
                 let mut b = broker.borrow_mut();
                 if let Some(n) = b.net.as_mut() {
-                    for part in line[3..].split(';') {
-                        let pt: Vec<&str> = part.split_whitespace().collect();
-                        if !pt.is_empty() {
-                            let _ = n.write(broker_packet(&pt)).await;
-                        }
-                    }
-                    let _ = n.flush().await;
+                    n.write_all(&packet_parts(&line[3..])).await;
                 }
                 "OK".to_string()
             }
@@ -706,12 +1087,12 @@ async fn run() {
                 "OK".to_string()
             }
             "POLL" => {
-                let (_, el) = lp.as_mut().unwrap();
-                let r = tokio::time::timeout(Duration::from_millis(1), el.poll()).await;
+                let el = lp.as_mut().unwrap();
+                let r = tokio::time::timeout(Duration::from_millis(1), poll_s(el)).await;
                 let head = match r {
                     Err(_) => "IDLE".to_string(),
-                    Ok(Ok(e)) => format!("EVENT {}", event_s(&e)),
-                    Ok(Err(e)) => format!("ERROR {}", error_s(&e)),
+                    Ok(Ok(e)) => format!("EVENT {e}"),
+                    Ok(Err(e)) => format!("ERROR {e}"),
                 };
                 let w = broker.borrow_mut().received();
                 format!("{} WIRE[{}]", head, w.join(" "))
@@ -733,9 +1114,10 @@ async fn run() {
                 kaconn(t[1], t[2].parse().unwrap(), h, &next_socket).await
             }
             "FINISH" => {
-                let (_, el) = lp.as_mut().unwrap();
-                el.clean();
-                let l: Vec<String> = el.pending.iter().map(request_s).collect();
+                let l: Vec<String> = match lp.as_mut().unwrap() {
+                    Lp::V4(_, el) => { el.clean(); el.pending.iter().map(request_s).collect() }
+                    Lp::V5(_, el) => { el.clean(); el.pending.iter().map(t5::request_s).collect() }
+                };
                 format!("HELD [{}]", l.join(" "))
             }
             o => panic!("bad op {o}"),
